@@ -104,6 +104,8 @@ type VerifC17Dedup struct {
 	m   *subscriptionManager
 	st  *subscriptionState
 	pub chan cache.UpdateEvent
+	// Sent collects what handleEvent published (what the stream handler would send); the caller may clear it
+	Sent []cache.UpdateEvent
 }
 
 func VerifC17NewDedup() *VerifC17Dedup {
@@ -120,7 +122,8 @@ func VerifC17NewDedup() *VerifC17Dedup {
 func (d *VerifC17Dedup) drain() (n int) {
 	for {
 		select {
-		case <-d.pub:
+		case e := <-d.pub:
+			d.Sent = append(d.Sent, e)
 			n++
 		default:
 			return
